@@ -256,6 +256,13 @@ impl TermModel {
     }
 }
 
+static FAULT_KIND: std::sync::atomic::AtomicU8 = std::sync::atomic::AtomicU8::new(0);
+
+/// Error kind of injected faults (0 Other, 1 Interrupted, 2 WouldBlock, 3 BrokenPipe).
+pub fn set_fault_kind(k: u8) {
+    FAULT_KIND.store(k, std::sync::atomic::Ordering::Relaxed);
+}
+
 #[derive(Clone, Copy, Debug, PartialEq, Eq)]
 pub enum Fault {
     None,
@@ -366,7 +373,13 @@ impl Spy {
             if let Some(l) = st.log.as_mut() {
                 l.push("  -> Err".to_string());
             }
-            return Err(io::Error::new(io::ErrorKind::Other, "injected terminal fault"));
+            let kind = match FAULT_KIND.load(std::sync::atomic::Ordering::Relaxed) {
+                1 => io::ErrorKind::Interrupted,
+                2 => io::ErrorKind::WouldBlock,
+                3 => io::ErrorKind::BrokenPipe,
+                _ => io::ErrorKind::Other,
+            };
+            return Err(io::Error::new(kind, "injected terminal fault"));
         }
         if let Some(b) = bytes {
             st.feed(&b);
@@ -476,6 +489,9 @@ impl TermLike for Spy {
             if st.frames.is_some() {
                 let t = crate::clock::now_ns();
                 let d = st.model.doc();
+                if std::env::var("VLOOM_DEBUG").is_ok() {
+                    eprintln!("  frame {:?}", d);
+                }
                 st.frames.as_mut().unwrap().push((t, d));
             }
         }
